@@ -782,6 +782,12 @@ func main() {
 			os.Exit(1)
 		}
 	}
+	if len(os.Args) >= 7 {
+		if err := emitGrad(repo, os.Args[6]); err != nil {
+			fmt.Fprintln(os.Stderr, "gox:", err)
+			os.Exit(1)
+		}
+	}
 	if len(os.Args) >= 6 {
 		if err := emitData(repo, os.Args[5]); err != nil {
 			fmt.Fprintln(os.Stderr, "gox:", err)
